@@ -229,9 +229,18 @@ pub fn cmd(args: &Args) {
                     let kinds: Vec<&(std::io::ErrorKind, &str)> = if all_kinds || image_name == "empty" {
                         usable
                     } else {
-                        // two kinds per call in the quick tier, rotating
+                        // two kinds per call in the quick tier, rotating; NotFound at every open besides
+                        // (the natural failure of an open: a file that vanished since the listing)
                         let first = (k + site_idx + forever as usize) % usable.len();
-                        vec![usable[first], usable[(first + 2) % usable.len()]]
+                        let mut picked = vec![usable[first], usable[(first + 2) % usable.len()]];
+                        if *site_name == "open" {
+                            if let Some(not_found) = usable.iter().find(|(kind, _)| *kind == std::io::ErrorKind::NotFound) {
+                                if !picked.iter().any(|(kind, _)| *kind == std::io::ErrorKind::NotFound) {
+                                    picked.push(*not_found);
+                                }
+                            }
+                        }
+                        picked
                     };
                     for (kind, kind_name) in kinds {
                         if stop {
